@@ -1,1 +1,50 @@
-//! c09_task (ntpd): not implemented yet.
+//! C09 (daemon level, group gs): what the REAL source task does with kiss-o'-death answers.
+//! DENY / RSTR to a plain source: no message to the system task, the task keeps polling, and
+//! only when the source also becomes unreachable it reports `MustDemobilize` (never
+//! `Unreachable`); without a deny since the last usable answer it reports `Unreachable`.
+//! RATE: the next poll exponent on the wire is not smaller than the one just used (and one step
+//! longer until the maximum), and the value handed to the poll timer is >= 1.01 * 2^floor.
+//! Unknown KISS: nothing observable changes. Rig, reference and driver: `c11_task.rs`.
+#![allow(dead_code)]
+
+use super::c11_task::{self as rig, Plan, Sym, Ts, Ver, cfg};
+use super::common::{self, Ctx};
+
+fn replay(ctx: &Ctx, trace: &str) -> String {
+    rig::replay_case(ctx, "C09", trace)
+}
+
+#[test]
+fn check() {
+    let ctx = Ctx::new("C09");
+    if let Some(t) = common::replay_trace() {
+        let a = replay(&ctx, &t);
+        let b = replay(&ctx, &t);
+        common::report_replay("C09", &a, &b, ctx.violation_count() > 0);
+        return;
+    }
+    ctx.rule("every script of exactly n poll reactions (shorter scripts are their prefixes: silence follows anyway) over {N none, V valid, D DENY, S RSTR (v4), R RATE, U unknown KISS, O wrong origin, Q (v5) valid asking for max+2} played by a scripted UDP server against the real SourceTask::run, then silent polls until the task gives up; distinct = canonical observation differs");
+    rig::common_assumptions(&ctx);
+    ctx.assume("a KISS answer does not consume the pending request (statement silent; one KISS per poll is sent, so this is not exercised)");
+    let quick = ctx.quick();
+    let alpha = vec![Sym::N, Sym::V, Sym::D, Sym::S, Sym::R, Sym::U, Sym::O, Sym::Q];
+    let len = if quick { 5 } else { 6 };
+    let mut plans = Vec::new();
+    for c in [
+        cfg(Ver::V4, 4, 10, Ts::Kr),
+        cfg(Ver::V4, 4, 4, Ts::Sw),
+        cfg(Ver::V4, 4, 6, Ts::Sw),
+        cfg(Ver::V5, 4, 10, Ts::Kr),
+        cfg(Ver::V5, 4, 6, Ts::Sw),
+        cfg(Ver::Auto, 4, 10, Ts::Ka),
+    ] {
+        plans.push(Plan { cfg: c, alphabet: alpha.iter().copied().filter(|s| s.applies(c.ver)).collect(), len });
+    }
+    if !quick {
+        plans.push(Plan { cfg: cfg(Ver::V4, 4, 10, Ts::Ka), alphabet: alpha.iter().copied().filter(|s| s.applies(Ver::V4)).collect(), len: 7 });
+    }
+    // RATE ladder to the configured maximum and beyond: 4 -> 10 needs six RATE answers
+    plans.push(Plan { cfg: cfg(Ver::V4, 4, 10, Ts::Sw), alphabet: vec![Sym::R, Sym::V, Sym::N], len: if quick { 8 } else { 11 } });
+    rig::explore(&ctx, "C09", &plans);
+    ctx.finish();
+}
